@@ -3,6 +3,7 @@
 //! Thin public wrappers around crate-private items so that an external harness can drive
 //! individual compiler stages. Nothing in here is compiled without the feature.
 pub mod asmopt;
+pub mod cache;
 pub mod datasection;
 pub mod entry;
 pub mod matching;
